@@ -744,6 +744,20 @@ pub fn monitor(fs: &SimFs, drv: &mut crate::drv::Drv) -> (usize, Option<String>)
         return (0, None);
     }
     if ans.starts_with("ok ") {
+        // the freshness condition of the version-builder theorems (Rain/Props/Builder.lean): within one
+        // manifest no (level, table number) is added twice; a snapshot record starts every manifest
+        let mut added: std::collections::BTreeMap<String, std::collections::BTreeSet<String>> = Default::default();
+        for (tok, oplog_idx) in &stream {
+            let p: Vec<&str> = tok.split(':').collect();
+            if p.len() == 5 && p[0] == "am" && p[3] != "_" {
+                let set = added.entry(p[1].to_string()).or_default();
+                for pair in p[3].split(',') {
+                    if !set.insert(pair.to_string()) {
+                        return (stream.len(), Some(format!("manifest {} adds table (level.number) {pair} a second time (filesystem operation {oplog_idx}): file numbers are re-used, so replaying the manifest with one version builder need not give the version the running instance had (freshness hypothesis of builder_recovery_eq_running)", p[1])));
+                    }
+                }
+            }
+        }
         return (stream.len(), None);
     }
     if let Some(rest) = ans.strip_prefix("bad ") {
